@@ -1,0 +1,24 @@
+//go:build verif
+// +build verif
+
+package consensus
+
+import "github.com/LemoFoundationLtd/lemochain-core/common"
+
+// This file is compiled only with the "verif" build tag (verification harnesses in /verif).
+
+// VerifResetSigCache clears the process-wide block-signature cache. A harness process that plays
+// several nodes with different node keys must call it whenever it switches the self node key,
+// because the cache is keyed by block hash only.
+func VerifResetSigCache() {
+	sigCache.Hash = common.Hash{}
+	sigCache.Sig = nil
+}
+
+// VerifSigCache returns the cached (hash, signature) pair.
+func VerifSigCache() (common.Hash, []byte) { return sigCache.Hash, sigCache.Sig }
+
+// VerifLastSig returns the confirmer's record of the last block this node signed.
+func VerifLastSig(dp *DPoVP) (uint32, common.Hash) {
+	return dp.confirmer.lastSig.Height, dp.confirmer.lastSig.Hash
+}
